@@ -421,6 +421,13 @@ def build(run):
         ("A_i[j,1]", Ai, (J, 1), lambda w, o, c, e: D(w, o, (e[J.count()], 1), e), (), [(I.count(), 2), (J.count(), 2)]),
         ("zero[1,:]", C.Zero((2, 3)), (1, slice(None)), lambda w, o, c, e: 0, (3,), ()),
         ("zero[i,1]", C.Zero((2, 3)), (I, 1), lambda w, o, c, e: 0, (), [(I.count(), 2)]),
+        # the repeated-index / own-free-index patterns above, on Zero operands (zero folding must still sum the repeated index away)
+        ("zero[i,i](trace)", C.Zero((3, 3)), (I, I), lambda w, o, c, e: 0, (), ()),
+        ("zero[:,i,i]", C.Zero((2, 3, 3)), (slice(None), I, I), lambda w, o, c, e: 0, (2,), ()),
+        ("zero[j,i,i]", C.Zero((2, 3, 3)), (J, I, I), lambda w, o, c, e: 0, (), [(J.count(), 2)]),
+        ("zero_i[i,:](sum with own free index)", C.Zero((2, 3), (I.count(),), (2,)), (I, slice(None)), lambda w, o, c, e: 0, (3,), ()),
+        ("zero_i[j,1]", C.Zero((2, 3), (I.count(),), (2,)), (J, 1), lambda w, o, c, e: 0, (), [(I.count(), 2), (J.count(), 2)]),
+        ("zero[i,...,i]", C.Zero((2, 3, 2)), (I, Ellipsis, I), lambda w, o, c, e: 0, (3,), ()),
         ("identity[0,0]", C.Identity(3), (0, 0), lambda w, o, c, e: 1, (), ()),
         ("identity[0,2]", C.Identity(3), (0, 2), lambda w, o, c, e: 0, (), ()),
         ("identity[i,1]", C.Identity(3), (I, 1), lambda w, o, c, e: 1 if e[I.count()] == 1 else 0, (), [(I.count(), 3)]),
